@@ -531,7 +531,7 @@ def replay_collisions():
     from octave_mcp.core.schema_extractor import FieldDefinition, SchemaDefinition
 
     bad = []
-    for names in (["WS"], ["CONTENT"], ["FIELD"], ["ROOT"], ["DOCUMENT"], ["A.B", "a_dot_b"], ["Name", "NAME"], ["x_2", "X", "x"], ["STATUS", "status", "STATUS_2"], ["STATUS_2", "STATUS", "status"], ["CONTENT", "content_2"], ["content_2", "CONTENT"], ["A.B", "a_dot_b", "A.B-2"], ["X", "x", "x_2", "X_2", "x_3"], ["WS", "ws_2", "WS_2"]):
+    for names in (["ROOT_"], ["_content"], ["ws-"], ["Document!"], ["FIELD_"], ["_ROOT_"], ["root."], ["WS"], ["CONTENT"], ["FIELD"], ["ROOT"], ["DOCUMENT"], ["A.B", "a_dot_b"], ["Name", "NAME"], ["x_2", "X", "x"], ["STATUS", "status", "STATUS_2"], ["STATUS_2", "STATUS", "status"], ["CONTENT", "content_2"], ["content_2", "CONTENT"], ["A.B", "a_dot_b", "A.B-2"], ["X", "x", "x_2", "X_2", "x_3"], ["WS", "ws_2", "WS_2"]):
         s = SchemaDefinition(name="S", version="1.0")
         for nm in names:
             s.fields[nm] = FieldDefinition(name=nm, pattern=None, raw_value="")
